@@ -658,6 +658,8 @@ struct ExWorld {
     attrs: FnvHashMap<(String, String), Arc<Vec<packet::Attribute>>>,
     obs: Option<Observer>,
     mirror: std::collections::BTreeMap<(String, u32), (String, String, bool)>,
+    scen: String,
+    irej: bool,
 }
 
 fn ex_src_addr(s: &str) -> IpAddr {
@@ -686,21 +688,33 @@ fn ex_src_of_asn(a: u32) -> &'static str {
     }
 }
 
-fn ex_new_source(s: &str) -> Arc<table::Source> {
-    // router ids implement the model's SrcRank: o (1) < s1 (2) < s2 (3); everything else ties
+/// The sessions of a scenario.  "ebgp": everybody external (ranking by router id: o < s1 < s2).  "ibgp": the observer and
+/// s2 are internal non-client sessions (split horizon keeps s2's routes from the observer), s1 is external and therefore
+/// preferred.  "rs": the observer and s1 are route-server clients, s2 is a plain external peer (the route-server boundary
+/// keeps its routes from the observer).
+fn ex_new_source(s: &str, scen: &str) -> Arc<table::Source> {
+    // router ids implement the model's SrcRank among sessions of the same kind: o (1) < s1 (2) < s2 (3)
     let rid = match s {
         "o" => 1,
         "s1" => 2,
         _ => 3,
     };
-    Arc::new(table::Source::new(
-        ex_src_addr(s),
-        IpAddr::V4(Ipv4Addr::new(127, 0, 0, 9)),
-        ex_src_asn(s),
-        65001,
-        Ipv4Addr::new(1, 1, 1, rid),
-        PeerRole::Ebgp,
-    ))
+    let (asn, role) = match (scen, s) {
+        ("ibgp", "s1") => (ex_src_asn(s), PeerRole::Ebgp),
+        ("ibgp", _) => (65001, PeerRole::Ibgp),
+        ("rs", "s2") => (ex_src_asn(s), PeerRole::Ebgp),
+        ("rs", _) => (ex_src_asn(s), PeerRole::RsClient),
+        _ => (ex_src_asn(s), PeerRole::Ebgp),
+    };
+    Arc::new(table::Source::new(ex_src_addr(s), IpAddr::V4(Ipv4Addr::new(127, 0, 0, 9)), asn, 65001, Ipv4Addr::new(1, 1, 1, rid), role))
+}
+
+fn ex_nexthop(s: &str) -> Ipv4Addr {
+    match s {
+        "s1" => Ipv4Addr::new(192, 0, 2, 1),
+        "s2" => Ipv4Addr::new(192, 0, 2, 2),
+        _ => Ipv4Addr::new(192, 0, 2, 3),
+    }
 }
 
 fn ex_prefix(p: &str) -> packet::Nlri {
@@ -758,7 +772,8 @@ fn ex_content(attr: &[packet::Attribute]) -> (String, String, bool) {
     (src, cls, ll)
 }
 
-async fn ex_observer(global: &GlobalHandle, tables: &TableHandle, sendmax: usize) -> Observer {
+async fn ex_observer(global: &GlobalHandle, tables: &TableHandle, sendmax: usize, scen: &str) -> Observer {
+    let obs_asn: u32 = if scen == "ibgp" { 65001 } else { 65002 };
     let (client, server) = pair_from(Ipv4Addr::new(127, 0, 0, 1)).await;
     let addr = IpAddr::V4(Ipv4Addr::new(127, 0, 0, 1));
     let mut sess = accept_connection(global, tables, server, crate::fsm::Role::Passive)
@@ -769,19 +784,19 @@ async fn ex_observer(global: &GlobalHandle, tables: &TableHandle, sendmax: usize
     let local = stream.local_addr().unwrap();
     let mut caps = vec![
         packet::Capability::MultiProtocol(Family::IPV4),
-        packet::Capability::FourOctetAsNumber(65002),
+        packet::Capability::FourOctetAsNumber(obs_asn),
     ];
     if sendmax > 1 {
         caps.push(packet::Capability::AddPath(vec![(Family::IPV4, 1)]));
     }
     let daemon_caps = global.read().await.peers.get(&addr).unwrap().config.local_cap.clone();
-    let mut remote = Remote::new(client, 65002);
+    let mut remote = Remote::new(client, obs_asn);
     remote.codec = bgp::PeerCodec::negotiate(&caps, &daemon_caps);
     let role = sess.role;
     let inputs = vec![
         crate::fsm::Input::Connected(false),
         crate::fsm::Input::MessageReceived(bgp::Message::Open(bgp::Open {
-            as_number: 65002,
+            as_number: obs_asn,
             holdtime: HoldTime::new(90).unwrap(),
             router_id: u32::from(Ipv4Addr::new(10, 9, 9, 9)),
             capability: caps,
@@ -796,8 +811,24 @@ async fn ex_observer(global: &GlobalHandle, tables: &TableHandle, sendmax: usize
     Observer { sess, stream, remote, local, peer }
 }
 
+/// The import policy of the export world: it rejects class "f" (the `filter` operation announces a route in that form,
+/// community 65000:9) and, when `also_y`, class "y" (community 65000:2) as well.
+fn ex_import_policy(also_y: bool) -> Arc<table::PolicyAssignment> {
+    let mut pats = vec!["65000:9".to_string()];
+    if also_y {
+        pats.push("65000:2".to_string());
+    }
+    let mut pt = table::PolicyTable::new();
+    pt.add_defined_set(table::DefinedSetConfig::Community { name: "rej".into(), patterns: pats }).map_err(|_| ()).unwrap();
+    pt.add_statement("s", vec![table::ConditionConfig::CommunitySet("rej".into(), table::MatchOption::Any)], Some(table::Disposition::Reject), table::Actions::default())
+        .map_err(|_| ())
+        .unwrap();
+    pt.add_policy("p", vec!["s".into()]).map_err(|_| ()).unwrap();
+    pt.add_assignment("global", table::PolicyDirection::Import, table::Disposition::Accept, vec!["p".into()]).map_err(|_| ()).unwrap().1
+}
+
 impl ExWorld {
-    async fn new(sendmax: usize, reject: &str) -> Self {
+    async fn new(sendmax: usize, reject: &str, scen: &str) -> Self {
         let global = mk_global();
         let tables: TableHandle = Arc::new(TableManager::new(1));
         // an export policy that rejects the routes of one attribute class (they carry the community 65000:<n>)
@@ -811,17 +842,7 @@ impl ExWorld {
             let (_, a) = pt.add_assignment("global", table::PolicyDirection::Export, table::Disposition::Accept, vec!["p".into()]).map_err(|_| ()).unwrap();
             a
         };
-        {
-            // the import policy rejects class "f" (the `filter` operation announces a route in that form)
-            let mut pt = table::PolicyTable::new();
-            pt.add_defined_set(table::DefinedSetConfig::Community { name: "rej".into(), patterns: vec!["65000:9".into()] }).map_err(|_| ()).unwrap();
-            pt.add_statement("s", vec![table::ConditionConfig::CommunitySet("rej".into(), table::MatchOption::Any)], Some(table::Disposition::Reject), table::Actions::default())
-                .map_err(|_| ())
-                .unwrap();
-            pt.add_policy("p", vec!["s".into()]).map_err(|_| ()).unwrap();
-            let (_, a) = pt.add_assignment("global", table::PolicyDirection::Import, table::Disposition::Accept, vec!["p".into()]).map_err(|_| ()).unwrap();
-            tables.import_policy.store(Some(a));
-        }
+        tables.import_policy.store(Some(ex_import_policy(false)));
         if reject != "-" {
             // the neighbour's own export policy rejects class `reject`; the global one (which the neighbour's overrides)
             // rejects the OTHER class, so that using the wrong one anywhere shows
@@ -834,6 +855,14 @@ impl ExWorld {
             p.families.insert(Family::IPV4, 2);
             p.send_max.insert(Family::IPV4, sendmax);
         }
+        match scen {
+            "ibgp" => {
+                p.expected_remote_asn = 65001;
+                p.local_asn = 65001;
+            }
+            "rs" => p.rs_client = true,
+            _ => {}
+        }
         global.write().await.add_peer(p, None).unwrap();
         if reject != "-" {
             let n = if reject == "x" { 1 } else { 2 };
@@ -841,10 +870,10 @@ impl ExWorld {
         }
         let mut sources = FnvHashMap::default();
         for s in ["s1", "s2", "o"] {
-            sources.insert(s.to_string(), ex_new_source(s));
+            sources.insert(s.to_string(), ex_new_source(s, scen));
         }
-        let obs = Some(ex_observer(&global, &tables, sendmax).await);
-        ExWorld { global, tables, obs_addr, sendmax, sources, attrs: FnvHashMap::default(), obs, mirror: Default::default() }
+        let obs = Some(ex_observer(&global, &tables, sendmax, scen).await);
+        ExWorld { global, tables, obs_addr, sendmax, sources, attrs: FnvHashMap::default(), obs, mirror: Default::default(), scen: scen.to_string(), irej: false }
     }
 
     /// flush the session and read everything it wrote (a KEEPALIVE written afterwards marks the end)
@@ -899,11 +928,7 @@ impl ExWorld {
             "announce" | "filter" => {
                 let cls = if tok[0] == "filter" { "f" } else { tok[3] };
                 let src = self.sources[tok[1]].clone();
-                let nh = bgp::Nexthop::V4(match tok[1] {
-                    "s1" => Ipv4Addr::new(192, 0, 2, 1),
-                    "s2" => Ipv4Addr::new(192, 0, 2, 2),
-                    _ => Ipv4Addr::new(192, 0, 2, 3),
-                });
+                let nh = bgp::Nexthop::V4(ex_nexthop(tok[1]));
                 self.tables.insert_route(
                     src,
                     Family::IPV4,
@@ -929,7 +954,17 @@ impl ExWorld {
             }
             "peerdown" => {
                 self.tables.drop_families(ex_src_addr(tok[1]), &[Family::IPV4]);
-                self.sources.insert(tok[1].to_string(), ex_new_source(tok[1]));
+                self.sources.insert(tok[1].to_string(), ex_new_source(tok[1], &self.scen));
+            }
+            "impflip" => {
+                self.irej = !self.irej;
+                self.tables.import_policy.store(Some(ex_import_policy(self.irej)));
+            }
+            "softin" => {
+                self.tables.soft_reset_in(ex_src_addr(tok[1]));
+            }
+            "nhdown" | "nhup" => {
+                self.tables.update_nexthop_validity(IpAddr::V4(ex_nexthop(tok[1])), tok[0] == "nhup");
             }
             "markllgr" => {
                 self.tables.mark_llgr_stale(ex_src_addr(tok[1]), &[Family::IPV4]);
@@ -966,7 +1001,7 @@ impl ExWorld {
                     let _ = arb.process(crate::fsm::Role::Passive, crate::fsm::Input::Disconnected);
                 }
                 self.mirror.clear();
-                self.obs = Some(ex_observer(&self.global, &self.tables, self.sendmax).await);
+                self.obs = Some(ex_observer(&self.global, &self.tables, self.sendmax, &self.scen).await);
                 if tok[0] == "fresh" {
                     note.push_str(&self.flush_and_read().await);
                 }
@@ -1007,24 +1042,33 @@ async fn export_replay() {
         if tok[0] == "seq" {
             seq = tok[1].to_string();
             step = 0;
-            let mut nw = ExWorld::new(tok[2].parse().unwrap(), tok.get(3).copied().unwrap_or("-")).await;
+            let mut nw = ExWorld::new(tok[2].parse().unwrap(), tok.get(3).copied().unwrap_or("-"), tok.get(4).copied().unwrap_or("ebgp")).await;
             // the initial dump of the empty RIB (OPEN, KEEPALIVE, End-of-RIB)
             let _ = nw.flush_and_read().await;
             w = Some(nw);
             continue;
         }
         step += 1;
-        let world = w.as_mut().unwrap();
-        let note = world.apply(&tok).await;
-        writeln!(
-            out,
-            "{{\"seq\":\"{}\",\"step\":{},\"state\":{},\"note\":\"{}\"}}",
-            seq,
-            step,
-            world.project(),
-            note
-        )
-        .unwrap();
+        // a panic of the code under test ends the behaviour (its locks are poisoned); it is reported on the step
+        let Some(world) = w.as_mut() else {
+            writeln!(out, "{{\"seq\":\"{}\",\"step\":{},\"state\":{{\"mirror\":[],\"pend_empty\":true}},\"note\":\"skipped after a panic\"}}", seq, step).unwrap();
+            continue;
+        };
+        use futures::FutureExt;
+        match std::panic::AssertUnwindSafe(world.apply(&tok)).catch_unwind().await {
+            Ok(note) => {
+                writeln!(out, "{{\"seq\":\"{}\",\"step\":{},\"state\":{},\"note\":\"{}\"}}", seq, step, world.project(), note).unwrap();
+            }
+            Err(_) => {
+                writeln!(
+                    out,
+                    "{{\"seq\":\"{}\",\"step\":{},\"state\":{{\"mirror\":[],\"pend_empty\":true}},\"note\":\"PANIC in the code under test\"}}",
+                    seq, step
+                )
+                .unwrap();
+                std::mem::forget(w.take());
+            }
+        }
     }
     out.flush().unwrap();
 }
@@ -3319,4 +3363,333 @@ async fn deferral_glue_replay() {
         )
         .unwrap();
     }
+}
+
+// ------------------------------------------------------------------------------------------------
+// C07, driver half (spec/Teardown/Teardown.tla): every way a real connection can end, in every state it can end in.
+// One real PeerSession::run per case over a loopback socket (passive: the peer connects; active: the daemon's socket is the
+// connecting end), a scripted peer brings it to the state, applies the cause and reads what the daemon writes until it
+// closes; then the peer's arbiter slot must be Idle and a new attempt in the same direction must be accepted and be sent
+// an OPEN.
+//
+// Input (VERIF_IN ends ".teardown.in"):  case <state> <cause> <role>
+// Output: {"i":n,"slot":"Idle","reconnect":bool,"code":c,"sub":s,"note":".."}   (code 0 = no NOTIFICATION seen)
+
+async fn td_pair(role: crate::fsm::Role) -> (TcpStream, TcpStream) {
+    let a = Ipv4Addr::new(127, 0, 0, 1);
+    if role == crate::fsm::Role::Passive {
+        let (client, server) = pair_from(a).await;
+        (server, client)
+    } else {
+        let listener = tokio::net::TcpListener::bind((a, 0)).await.unwrap();
+        let la = listener.local_addr().unwrap();
+        let daemon = TcpStream::connect(la).await.unwrap();
+        let (remote, _) = listener.accept().await.unwrap();
+        (daemon, remote)
+    }
+}
+
+fn td_open_bytes(asn: u32) -> Vec<u8> {
+    let mut buf = bytes::BytesMut::with_capacity(256);
+    bgp::PeerCodec::new()
+        .encode_to(
+            &bgp::Message::Open(bgp::Open {
+                as_number: asn,
+                holdtime: HoldTime::new(90).unwrap(),
+                router_id: u32::from(Ipv4Addr::new(10, 0, 0, 2)),
+                capability: vec![packet::Capability::MultiProtocol(Family::IPV4), packet::Capability::FourOctetAsNumber(asn)],
+            }),
+            &mut buf,
+        )
+        .unwrap();
+    buf.to_vec()
+}
+
+#[tokio::test]
+async fn teardown_replay() {
+    let Ok(inp) = std::env::var("VERIF_IN") else {
+        return;
+    };
+    if !inp.ends_with(".teardown.in") {
+        return;
+    }
+    let outp = std::env::var("VERIF_OUT").expect("VERIF_OUT");
+    let text = std::fs::read_to_string(&inp).expect("read VERIF_IN");
+    let mut out = std::io::BufWriter::new(std::fs::File::create(&outp).expect("create VERIF_OUT"));
+    let addr = IpAddr::V4(Ipv4Addr::new(127, 0, 0, 1));
+    let remote_asn = 65010u32;
+    for (idx, line) in text.lines().enumerate() {
+        let tok: Vec<&str> = line.split_whitespace().collect();
+        if tok.is_empty() || tok[0] != "case" {
+            continue;
+        }
+        let (st, cause) = (tok[1], tok[2]);
+        let role = if tok[3] == "Active" { crate::fsm::Role::Active } else { crate::fsm::Role::Passive };
+        let mut note = String::new();
+        let global = mk_global();
+        let tables: TableHandle = Arc::new(TableManager::new(1));
+        let mut p = base_params(addr);
+        p.expected_remote_asn = remote_asn;
+        p.local_asn = 65001;
+        global.write().await.add_peer(p, None).unwrap();
+        let (daemon, client) = td_pair(role).await;
+        let Some(sess) = accept_connection(&global, &tables, daemon, role).await else {
+            writeln!(out, "{{\"i\":{},\"slot\":\"?\",\"reconnect\":false,\"code\":0,\"sub\":0,\"note\":\"first connection refused\"}}", idx).unwrap();
+            continue;
+        };
+        let (atx, _arx) = mpsc::unbounded_channel();
+        let g2 = global.clone();
+        let task = tokio::spawn(async move { sess.run(g2, atx).await });
+        let mut r = Remote::new(client, remote_asn);
+        if !r.read_open().await {
+            note.push_str("no OPEN from the daemon;");
+        }
+        // bring the connection to the state
+        if st != "OpenSent" {
+            let _ = r.send_raw(&td_open_bytes(remote_asn)).await;
+            let mut ka = false;
+            for _ in 0..4 {
+                match r.recv(WAIT_MS).await {
+                    Some(bgp::Message::Keepalive) => {
+                        ka = true;
+                        break;
+                    }
+                    Some(_) => {}
+                    None => break,
+                }
+            }
+            if !ka {
+                note.push_str("no KEEPALIVE after our OPEN;");
+            }
+            if st == "Established" {
+                let _ = r.send(&bgp::Message::Keepalive).await;
+                // the daemon's End-of-RIB marks Established
+                for _ in 0..4 {
+                    match r.recv(WAIT_MS).await {
+                        Some(bgp::Message::Update(_)) => break,
+                        Some(_) => {}
+                        None => {
+                            note.push_str("no End-of-RIB after Established;");
+                            break;
+                        }
+                    }
+                }
+            }
+        }
+        // the cause
+        let mut hdr = vec![0xffu8; 16];
+        match cause {
+            "eof" => r.close(),
+            "notification" => {
+                let _ = r.send(&bgp::Message::Notification(bgp::Notification::CeaseAdministrativeReset)).await;
+            }
+            "open_hold1" | "open_hold2" | "open_id0" | "open_version" => {
+                let mut b = td_open_bytes(remote_asn);
+                match cause {
+                    "open_hold1" => b[22..24].copy_from_slice(&1u16.to_be_bytes()),
+                    "open_hold2" => b[22..24].copy_from_slice(&2u16.to_be_bytes()),
+                    "open_id0" => b[24..28].copy_from_slice(&[0, 0, 0, 0]),
+                    _ => b[19] = 3,
+                }
+                let _ = r.send_raw(&b).await;
+            }
+            "open_badas" => {
+                let _ = r.send_raw(&td_open_bytes(remote_asn + 1)).await;
+            }
+            "bad_marker" => {
+                hdr[0] = 0;
+                hdr.extend_from_slice(&[0, 19, 4]);
+                let _ = r.send_raw(&hdr).await;
+            }
+            "bad_type" => {
+                hdr.extend_from_slice(&[0, 19, 9]);
+                let _ = r.send_raw(&hdr).await;
+            }
+            "short_length" => {
+                hdr.extend_from_slice(&[0, 18, 4]);
+                let _ = r.send_raw(&hdr).await;
+            }
+            "update" => {
+                // the smallest well-formed UPDATE (no withdrawn routes, no attributes, no NLRI): it parses the same
+                // whatever has or has not been negotiated yet
+                hdr.extend_from_slice(&[0, 23, 2, 0, 0, 0, 0]);
+                let _ = r.send_raw(&hdr).await;
+            }
+            "keepalive" => {
+                let _ = r.send(&bgp::Message::Keepalive).await;
+            }
+            "open" => {
+                let _ = r.send_raw(&td_open_bytes(remote_asn)).await;
+            }
+            "refresh" => {
+                let _ = r.send(&bgp::Message::RouteRefresh { family: Family::IPV4 }).await;
+            }
+            x => panic!("harness: cause {x}"),
+        }
+        // what the daemon writes until it closes
+        let (mut code, mut sub) = (0u8, 0u8);
+        if cause != "eof" {
+            for _ in 0..8 {
+                match r.recv(WAIT_MS).await {
+                    Some(bgp::Message::Notification(n)) => {
+                        code = n.notification_code();
+                        sub = n.notification_subcode();
+                    }
+                    Some(_) => {}
+                    None => break,
+                }
+            }
+            r.close();
+        }
+        if tokio::time::timeout(Duration::from_millis(WAIT_MS), task).await.is_err() {
+            note.push_str("the session task did not end;");
+        }
+        let slot_of = |g: &GlobalHandle| {
+            let g = g.clone();
+            async move {
+                let g = g.read().await;
+                let p = g.peers.get(&addr).unwrap();
+                let ctx = p.context.lock().unwrap();
+                let arb = ctx.conn_arbiter.lock().unwrap();
+                (arb.fsm.state(role), arb.has_connection(role))
+            }
+        };
+        let mut slot = slot_of(&global).await;
+        for _ in 0..100 {
+            if slot.0 == crate::fsm::State::Idle && !slot.1 {
+                break;
+            }
+            tokio::time::sleep(Duration::from_millis(2)).await;
+            slot = slot_of(&global).await;
+        }
+        // a new attempt in the same direction
+        let (daemon2, client2) = td_pair(role).await;
+        let mut reconnect = false;
+        match accept_connection(&global, &tables, daemon2, role).await {
+            None => note.push_str("new attempt refused;"),
+            Some(sess2) => {
+                let (atx2, _arx2) = mpsc::unbounded_channel();
+                let g3 = global.clone();
+                let task2 = tokio::spawn(async move { sess2.run(g3, atx2).await });
+                let mut r2 = Remote::new(client2, remote_asn);
+                reconnect = r2.read_open().await;
+                if !reconnect {
+                    note.push_str("new attempt got no OPEN;");
+                }
+                r2.close();
+                let _ = tokio::time::timeout(Duration::from_millis(WAIT_MS), task2).await;
+            }
+        }
+        writeln!(
+            out,
+            "{{\"i\":{},\"slot\":\"{:?}\",\"held\":{},\"reconnect\":{},\"code\":{},\"sub\":{},\"note\":\"{}\"}}",
+            idx, slot.0, slot.1, reconnect, code, sub, note
+        )
+        .unwrap();
+    }
+    out.flush().unwrap();
+}
+
+// ------------------------------------------------------------------------------------------------
+// C17, totality through the RPC (spec/ApiValue/ApiRaw.tla): AddPath with one raw attribute (UnknownAttribute) of every type
+// code / value shape / flag octet in four request contexts, on the real GrpcService.  Each call runs in its own task so that
+// a panic is a result, not the end of the run; after an accepted call the table is listed (ListPath re-encodes every stored
+// attribute) and the path deleted again.
+//
+// Input (VERIF_IN ends ".apiraw.in"):  raw <code> <shape> <flags> <ctx>
+// Output: {"i":n,"res":"ok|rejected|panic","list":"ok|err|panic","note":".."}
+// ------------------------------------------------------------------------------------------------
+fn raw_value(shape: &str) -> Vec<u8> {
+    match shape {
+        "empty" => vec![],
+        "one" => vec![0],
+        "three" => vec![0, 1, 1],
+        "four" => vec![0, 1, 1, 4],
+        "five" => vec![0, 1, 1, 4, 10],
+        "mp_nh_short" => vec![0, 1, 1, 4, 10, 0],
+        "mp_nh_overrun6" => {
+            let mut v = vec![0, 2, 1, 32, 0x20, 0x01, 0x0d, 0xb8];
+            v.extend_from_slice(&[0; 6]);
+            v
+        }
+        "mp_ok4" => vec![0, 1, 1, 4, 10, 0, 0, 1, 0, 24, 10, 1, 2],
+        "mp_ok6" => {
+            let mut v = vec![0, 2, 1, 16, 0x20, 0x01, 0x0d, 0xb8];
+            v.extend_from_slice(&[0; 11]);
+            v.push(1);
+            v.extend_from_slice(&[0, 32, 0x20, 0x01, 0x0d, 0xb8]);
+            v
+        }
+        "mp_nolen" => vec![0, 2, 1],
+        "ff16" => vec![0xff; 16],
+        "long300" => vec![0xab; 300],
+        x => panic!("harness: shape {x}"),
+    }
+}
+
+#[tokio::test]
+async fn api_raw_replay() {
+    use api::go_bgp_service_server::GoBgpService;
+    let Ok(inp) = std::env::var("VERIF_IN") else {
+        return;
+    };
+    if !inp.ends_with(".apiraw.in") {
+        return;
+    }
+    let outp = std::env::var("VERIF_OUT").expect("VERIF_OUT");
+    let text = std::fs::read_to_string(&inp).expect("read VERIF_IN");
+    let mut out = std::io::BufWriter::new(std::fs::File::create(&outp).expect("create VERIF_OUT"));
+    let mut world = Arc::new(AsWorld::new().await);
+    for (idx, line) in text.lines().enumerate() {
+        let t: Vec<&str> = line.split_whitespace().collect();
+        if t.is_empty() || t[0] != "raw" {
+            continue;
+        }
+        let code: u32 = t[1].parse().unwrap();
+        let value = raw_value(t[2]);
+        let flags: u32 = match t[3] {
+            "canon" => packet::Attribute::new_with_bin(code as u8, vec![]).map(|a| a.flags() as u32).unwrap_or(0xc0),
+            x => u32::from_str_radix(x.trim_start_matches("0x"), 16).unwrap(),
+        };
+        let (pfx, with_nh) = match t[4] {
+            "v4" => ("p1", false),
+            "v4nh" => ("p1", true),
+            "v6" => ("p6", false),
+            _ => ("p6", true),
+        };
+        let (family, _net, afam, anlri) = as_pfx(pfx);
+        let mut pattrs = vec![as_wrap(api::attribute::Attr::Unknown(api::UnknownAttribute { flags, r#type: code, value }))];
+        if with_nh {
+            pattrs.push(as_nh_attr(family));
+        }
+        let path = api::Path { nlri: Some(anlri), family: Some(afam), identifier: 0, pattrs, ..Default::default() };
+        let req = api::AddPathRequest { table_type: api::TableType::Global as i32, vrf_id: String::new(), path: Some(path) };
+        let w = world.clone();
+        let h = tokio::spawn(async move { w.svc.add_path(tonic::Request::new(req)).await.map(|r| r.into_inner().uuid) });
+        let (res, uuid) = match h.await {
+            Ok(Ok(u)) => ("ok", Some(u)),
+            Ok(Err(_)) => ("rejected", None),
+            Err(_) => ("panic", None),
+        };
+        let mut list = "ok";
+        if res == "panic" {
+            // locks may be poisoned: a fresh service for the next case
+            world = Arc::new(AsWorld::new().await);
+            list = "-";
+        } else {
+            let w = world.clone();
+            let h = tokio::spawn(async move { w.project().await });
+            if h.await.is_err() {
+                list = "panic";
+                world = Arc::new(AsWorld::new().await);
+            } else if let Some(u) = uuid {
+                let req = api::DeletePathRequest { table_type: api::TableType::Global as i32, uuid: u, ..Default::default() };
+                if world.svc.delete_path(tonic::Request::new(req)).await.is_err() {
+                    list = "err";
+                }
+            }
+        }
+        writeln!(out, "{{\"i\":{},\"res\":\"{}\",\"list\":\"{}\"}}", idx, res, list).unwrap();
+    }
+    out.flush().unwrap();
 }
